@@ -3,10 +3,14 @@ package main
 import (
 	"bytes"
 	"encoding/json"
+	"errors"
 	"flag"
 	"fmt"
 	"os"
+	"regexp"
 	"runtime"
+	"strings"
+	"sync"
 
 	"github.com/cockroachdb/redact"
 	"github.com/cockroachdb/redact/internal/rfmt"
@@ -284,6 +288,18 @@ func logHook(err error, verb rune) {
 
 // installHook registers the error hook corresponding to Printer!HookKind.
 func installHook(kind string) {
+	// printers that were used (and pooled) before the registration must honour it too
+	var wg sync.WaitGroup
+	for i := 0; i < 2*runtime.NumCPU(); i++ {
+		wg.Add(1)
+		go func() {
+			defer wg.Done()
+			for j := 0; j < 8; j++ {
+				_ = redact.Sprintf("%v %d %s", errors.New("warm-up"), j, redact.Safe("x"))
+			}
+		}()
+	}
+	wg.Wait()
 	currentHook = kind
 	switch kind {
 	case "none":
@@ -471,9 +487,12 @@ func judgeC02(rep *lib.Report, c *lib.Ctx, ln *printerLine, kase json.RawMessage
 	if !bytes.Equal(outs[0], outs[1]) {
 		rep.Violate("printer:interference", fmt.Sprintf("%s: redacted outputs differ: %q vs %q", caseString(c, ln.C), outs[0], outs[1]), kase)
 	}
+	// a sentinel of instantiation w in its own output names the leak; the same digits in the OTHER instantiation's
+	// output are public text that happens to look alike (object handles are running numbers), not a leak
+	sentinels := [2][]string{{"SECa", "7771", "1e5b", "1E5B"}, {"SEKRb", "7772", "1e5c", "1E5C"}}
 	for w := 0; w < 2; w++ {
-		for _, s := range []string{"SECa", "SEKRb", "7771", "7772", "1e5b", "1e5c", "1E5B", "1E5C"} {
-			if bytes.Contains(outs[w], []byte(s)) {
+		for _, s := range sentinels[w] {
+			if bytes.Contains(outs[w], []byte(s)) && !bytes.Contains(outs[1-w], []byte(s)) {
 				rep.Violate("printer:leak", fmt.Sprintf("%s: sentinel %q of an unsafe value survives redaction: %q", caseString(c, ln.C), s, outs[w]), kase)
 			}
 		}
@@ -551,7 +570,25 @@ func ownClassification(t *lib.Term) bool {
 		return true
 	case "obj":
 		for _, cp := range t.Caps {
-			if cp == "SF" || cp == "SM" || cp == "SV" || cp == "REG" || cp == "FM" {
+			if cp == "SF" || cp == "SM" || cp == "SV" || cp == "REG" {
+				return true
+			}
+		}
+		// a fmt.Formatter that finds the SafePrinter behind its fmt.State classifies only if it uses the
+		// Safe*/Unsafe* calls or prints operands that classify themselves; Print/Printf/Write of plain
+		// operands are "what fmt prints", written on behalf of the wrapped operand
+		for _, op := range t.FScr {
+			if strings.HasPrefix(op.O, "Safe") || strings.HasPrefix(op.O, "Unsafe") {
+				return true
+			}
+			for _, x := range op.Ts {
+				if ownClassification(x) {
+					return true
+				}
+			}
+		}
+		for _, x := range t.Pan {
+			if ownClassification(x) {
 				return true
 			}
 		}
@@ -614,9 +651,55 @@ func judgeC11(rep *lib.Report, c *lib.Ctx, ln *printerLine, res *realResult, kas
 	if methodPanics(ln.C.Ts) && !nilReceiverOnly(ln.C.Ts) && reachesMethods(ln) && !bytes.Contains(s, []byte("(PANIC=")) {
 		rep.Violate("printer:panic-unreported", fmt.Sprintf("%s: no PANIC= report in %q", desc, res.Out), kase)
 	}
+	judgePanicTwin(rep, c, ln, res, kase)
 	// the payload is unsafe: no secret payload text outside envelopes
 	if leaked := secretsVisible(ln.C.Ts, res.Out); leaked != "" {
 		rep.Violate("printer:panic-payload-visible", fmt.Sprintf("%s: secret payload %q is outside envelopes in %q", desc, leaked, res.Out), kase)
+	}
+}
+
+// judgePanicTwin: "reported in place, the text before and after intact", stated relationally and model-free.
+// The same call is made a second time with every user method writing a placeholder at the point where it
+// would have panicked (and returning); the characters of the real result must be those of the twin with each
+// placeholder replaced by the report %!<verb>(PANIC=<Method> method: <payload>) -- nothing lost before it,
+// nothing added after it, no second rendering of the operand.
+func judgePanicTwin(rep *lib.Report, c *lib.Ctx, ln *printerLine, res *realResult, kase json.RawMessage) {
+	if !methodPanics(ln.C.Ts) || payloadPanics(ln.C.Ts) || lib.HasKind(ln.C.Ts, "ptrto") {
+		return
+	}
+	// both runs use contexts of their own with the same object handles (handles are numbers that can show in the output)
+	rc := lib.NewCtx(c.Dict)
+	rr := runCase(rc, ln.C)
+	rc.Release()
+	tc := lib.NewCtxLike(c.Dict, rc.HandleBase)
+	tc.PanicTwin = true
+	tr := runCase(tc, ln.C)
+	tc.Release()
+	rep.AddEval(1)
+	if rr.Panicked || tr.Panicked || !lib.WellFormed(tr.Out) {
+		return // the twin is only an oracle where it is itself orderly
+	}
+	res = &rr
+	pat := regexp.QuoteMeta(string(lib.Strip(tr.Out)))
+	for k, tw := range tc.Twins {
+		payload := `(?s:.*?)`
+		if pt := tw.Payload; pt != nil && (pt.K == "string" || pt.K == "int") {
+			payload = regexp.QuoteMeta(fmt.Sprint(c.Value(pt)))
+		}
+		ph := regexp.QuoteMeta(lib.TwinPlaceholder(k))
+		if !strings.Contains(pat, ph) || strings.Contains(pat, `"`+ph) || strings.Contains(pat, "`"+ph) {
+			return // the placeholder was transformed on its way out (quoted, padded, cut by a precision): no oracle
+		}
+		pat = strings.Replace(pat, ph, `%!.\(PANIC=`+tw.Method+`\w* method: `+payload+`\)`, 1)
+	}
+	re, err := regexp.Compile(`^(?s:` + pat + `)$`)
+	if err != nil {
+		return
+	}
+	rep.Count("panic_twin_compared", 1)
+	if got := lib.Strip(res.Out); !re.Match(got) {
+		rep.Violate("printer:panic-not-in-place", fmt.Sprintf("%s: characters %q; with the panic points replaced by placeholders the same call prints %q, so %q was expected",
+			caseString(c, ln.C), got, lib.Strip(tr.Out), pat), kase)
 	}
 }
 
